@@ -48,7 +48,7 @@ let twice (o : sop) = match o with
   | _ -> false
 
 let dump_sys (v0 : bool) (s : sys) : string =
-  S.concat " " (L.mapi (fun i v -> Printf.sprintf "| S%d: %s" i (zs (sdump v0 s.heap v))) s.vecs)
+  S.concat " " (L.mapi (fun i v -> Printf.sprintf "| S%d: %s" i (zs (Run_vector.take (7 + Run_vector.max_print) (sdump v0 s.heap v)))) s.vecs)
 
 let run_case ~(v0 : bool) (c : case) =
   Printf.printf "case %s\n" c.name;
